@@ -301,3 +301,109 @@ func VerifC11_CatalogEvents() {
 	verifrt.PermuteMaps(false)
 	verifrt.Reached("end")
 }
+
+// Config-entry events: a subscriber of one entry (by its exact name) and a subscriber of the whole kind apply
+// the snapshot and then every published event; after every commit each view equals the direct query
+// (Store.ConfigEntry / ConfigEntriesByKind). Deletions are not skipped; names may contain upper-case letters.
+func VerifC11_ConfigEntryEvents() {
+	pub := &vC11Pub{}
+	s := NewStateStoreWithEventPublisher(nil, pub)
+	name := []string{"web", "Web-API"}[verifrt.Choice("name", 2)]
+	other := "other"
+	em := structs.DefaultEnterpriseMetaInDefaultPartition()
+	subject := EventSubjectConfigEntry{Name: name, EnterpriseMeta: em}
+	entry := func(n, proto string) *structs.ServiceConfigEntry {
+		e := &structs.ServiceConfigEntry{Kind: structs.ServiceDefaults, Name: n, Protocol: proto}
+		if err := e.Normalize(); err != nil {
+			panic(err)
+		}
+		return e
+	}
+	idx := verifrt.U64("idx")
+	verifrt.Assume(idx >= 1 && idx < 1<<60)
+	if verifrt.Bool("exists-before-subscription") {
+		if err := s.EnsureConfigEntry(idx, entry(name, "tcp")); err != nil {
+			panic(err)
+		}
+	}
+	pub.events = nil
+	// views: protocol of the named entry ("" = absent); names -> protocol for the kind
+	named, kind := "", map[string]string{}
+	apply := func(e stream.Event, byName bool) {
+		p, ok := e.Payload.(EventPayloadConfigEntry)
+		if !ok {
+			return
+		}
+		proto := ""
+		if p.Op == pbsubscribe.ConfigEntryUpdate_Upsert {
+			proto = p.Value.(*structs.ServiceConfigEntry).Protocol
+		}
+		if byName {
+			named = proto
+			return
+		}
+		if proto == "" {
+			delete(kind, p.Value.GetName())
+		} else {
+			kind[p.Value.GetName()] = proto
+		}
+	}
+	a := &vC11Appender{}
+	_, err := s.ServiceDefaultsSnapshot(stream.SubscribeRequest{Topic: EventTopicServiceDefaults, Subject: subject}, a)
+	verifrt.Assert("C11.config.snapshot-no-error", err == nil)
+	for _, e := range a.events {
+		apply(e, true)
+	}
+	a = &vC11Appender{}
+	_, err = s.ServiceDefaultsSnapshot(stream.SubscribeRequest{Topic: EventTopicServiceDefaults, Subject: stream.SubjectWildcard}, a)
+	verifrt.Assert("C11.config.snapshot-no-error", err == nil)
+	for _, e := range a.events {
+		apply(e, false)
+	}
+	check := func(tag string) {
+		for _, e := range pub.events {
+			if e.Topic != EventTopicServiceDefaults {
+				continue
+			}
+			// the publisher routes an event to the subscribers of its exact subject and to wildcard subscribers
+			if e.Payload.Subject().String() == subject.String() {
+				apply(e, true)
+			}
+			apply(e, false)
+		}
+		pub.events = nil
+		_, got, _ := s.ConfigEntry(nil, structs.ServiceDefaults, name, nil)
+		want := ""
+		if got != nil {
+			want = got.(*structs.ServiceConfigEntry).Protocol
+		}
+		verifrt.Assert("C11.config."+tag+".named-view-equals-query", named == want)
+		_, all, _ := s.ConfigEntriesByKind(nil, structs.ServiceDefaults, nil)
+		same := len(all) == len(kind)
+		for _, x := range all {
+			if kind[x.GetName()] != x.(*structs.ServiceConfigEntry).Protocol {
+				same = false
+			}
+		}
+		verifrt.Assert("C11.config."+tag+".kind-view-equals-query", same)
+	}
+	check("snapshot")
+	for step := 0; step < 2; step++ {
+		idx++
+		switch verifrt.Choice("write", 4) {
+		case 0:
+			verifrt.Assume(s.EnsureConfigEntry(idx, entry(name, "http")) == nil)
+			check("upsert")
+		case 1:
+			verifrt.Assume(s.DeleteConfigEntry(idx, structs.ServiceDefaults, name, nil) == nil)
+			check("delete")
+		case 2:
+			verifrt.Assume(s.EnsureConfigEntry(idx, entry(other, "grpc")) == nil)
+			check("upsert-other")
+		case 3:
+			verifrt.Assume(s.EnsureConfigEntry(idx, entry(name, "grpc")) == nil)
+			check("upsert-again")
+		}
+	}
+	verifrt.Reached("end")
+}
